@@ -1007,7 +1007,7 @@ func writeEvidence(id, tier string, seed uint64, p propInfo, ag *agg, wall time.
 		"seed":        int64(seed & 0x7fffffffffffffff),
 		"level":       p.Level,
 		"coverage":    cov,
-		"assumptions": p.Assumptions,
+		"assumptions": nonNil(p.Assumptions),
 		"wall_s":      wall.Seconds(),
 		"violations":  violations,
 	}
@@ -1016,6 +1016,13 @@ func writeEvidence(id, tier string, seed uint64, p propInfo, ag *agg, wall time.
 	if err := os.WriteFile(filepath.Join(outDir, "evidence", id+".json"), b, 0o644); err != nil {
 		die(2, "evidence: %v", err)
 	}
+}
+
+func nonNil(l []string) []string {
+	if l == nil {
+		return []string{}
+	}
+	return l
 }
 
 func main() {
